@@ -274,17 +274,32 @@ pub fn mk_config_at(o: &Opts, xdg_base: &Path) -> Box<Config> {
             let d = CString::new(DATA_DIR).unwrap();
             assert!(riti_config_set_database_dir(c, d.as_ptr()), "data dir rejected");
         }
-        riti_config_set_suggestion_include_english(c, o.english);
-        riti_config_set_phonetic_suggestion(c, o.psug);
-        riti_config_set_fixed_suggestion(c, o.fsug);
-        riti_config_set_fixed_auto_vowel(c, o.vowel);
-        riti_config_set_fixed_auto_chandra(c, o.chandra);
-        riti_config_set_fixed_traditional_kar(c, o.kar);
-        riti_config_set_fixed_old_reph(c, o.reph);
-        riti_config_set_fixed_numpad(c, o.numpad);
-        riti_config_set_fixed_old_kar_order(c, o.karorder);
-        riti_config_set_ansi_encoding(c, o.ansi);
-        riti_config_set_smart_quote(c, o.smart);
+        // A front-end may call the option setters in any order: the order is varied with the option
+        // set itself (deterministically), so that no check depends on one particular order.
+        let setters: [&dyn Fn(); 11] = [
+            &|| riti_config_set_suggestion_include_english(c, o.english),
+            &|| riti_config_set_phonetic_suggestion(c, o.psug),
+            &|| riti_config_set_fixed_suggestion(c, o.fsug),
+            &|| riti_config_set_fixed_auto_vowel(c, o.vowel),
+            &|| riti_config_set_fixed_auto_chandra(c, o.chandra),
+            &|| riti_config_set_fixed_traditional_kar(c, o.kar),
+            &|| riti_config_set_fixed_old_reph(c, o.reph),
+            &|| riti_config_set_fixed_numpad(c, o.numpad),
+            &|| riti_config_set_fixed_old_kar_order(c, o.karorder),
+            &|| riti_config_set_ansi_encoding(c, o.ansi),
+            &|| riti_config_set_smart_quote(c, o.smart),
+        ];
+        let h = {
+            use std::hash::{Hash, Hasher};
+            let mut hs = std::collections::hash_map::DefaultHasher::new();
+            o.hash(&mut hs);
+            hs.finish() as usize
+        };
+        let (rot, rev) = (h % 11, (h / 11) % 2 == 1);
+        for i in 0..11 {
+            let j = (i + rot) % 11;
+            setters[if rev { 10 - j } else { j }]();
+        }
         Box::from_raw(c)
     }
 }
@@ -532,6 +547,11 @@ pub mod watchdog {
                 for s in slots.lock().unwrap().iter() {
                     let t = s.load(Ordering::Relaxed);
                     if t != 0 && now.saturating_sub(t) > LIMIT.as_millis() as u64 {
+                        if std::env::var("VERIF_JOURNAL_DIR").is_ok() {
+                            // supervised run (C01): the parent turns the journal into a replay file
+                            println!("HANG one engine call exceeded {LIMIT:?}");
+                            std::process::exit(3);
+                        }
                         println!("INCONCLUSIVE watchdog: one engine call exceeded {LIMIT:?}");
                         super::cleanup_scratch();
                         std::process::exit(2);
